@@ -42,7 +42,8 @@ RULE = ("twin: dimension-wise density estimation (SpatiallyAdaptiveSingleDimensi
         "branch of the uniform-grid calculate_B is ever entered. Non-trivial = >=2 schemes, a grid >=200 points and the old "
         "right-hand sides were looked up. Distinct = distinct case dict.")
 ASSUMPTIONS = [
-    "boundary=False, modified_basis=False, numeric_calculation=False (the analytic matrix entries; the numeric variant "
+    "grids without and (25-33% of the non-directed cases) with boundary points; modified_basis=False, "
+    "numeric_calculation=False (the analytic matrix entries; the numeric variant "
     "integrates every entry with scipy.nquad and is ~1000x too slow for a twin run)",
     "class labels are a numpy array of per-sample weights: +-1 (test_dim_wise_run_classification), the one-vs-others weights "
     "the library computes itself (DataSet.split_one_vs_others: +1 / max(-1,-n_class/n_others)), and arbitrary real weights "
@@ -76,33 +77,36 @@ Q = drive.Q
 # ------------------------------------------------------------------------------------------------------------
 # reference model: tensor-product hats on arbitrary 1D stripes (zero boundary), written from the definition
 # ------------------------------------------------------------------------------------------------------------
-def ref_hat_matrix(stripe, xs):
-    """H[m, i] = value at xs[m] of the hat centred at interior point stripe[i+1] with support [stripe[i], stripe[i+2]]"""
+def ref_hat_matrix(stripe, xs, boundary=False):
+    """H[m, i] = value at xs[m] of the piecewise linear nodal basis function of stripe point i (stripe includes the domain
+    ends).  boundary=False: only the interior points (zero boundary); boundary=True: also the two half hats at the ends."""
     s = np.asarray(stripe, dtype=float)
     xs = np.asarray(xs, dtype=float)
-    lo, p, hi = s[:-2], s[1:-1], s[2:]
-    x = xs[:, None]
-    left = (x - lo[None, :]) / (p - lo)[None, :]
-    right = (hi[None, :] - x) / (hi - p)[None, :]
-    return np.clip(np.minimum(left, right), 0.0, None)
+    H = np.zeros((len(xs), len(s)))
+    k = np.clip(np.searchsorted(s, xs, side="right") - 1, 0, len(s) - 2)
+    h = s[k + 1] - s[k]
+    rows = np.arange(len(xs))
+    H[rows, k] = np.clip((s[k + 1] - xs) / h, 0.0, 1.0)
+    H[rows, k + 1] = np.clip((xs - s[k]) / h, 0.0, 1.0)
+    return H if boundary else H[:, 1:-1]
 
 
-def ref_B(data, signs, stripes):
+def ref_B(data, signs, stripes, boundary=False):
     data = np.asarray(data, dtype=float)
     M, dim = data.shape
     w = np.ones(M) if signs is None else np.asarray(signs, dtype=float)
     acc = w[:, None]
     for d in range(dim):
-        H = ref_hat_matrix(stripes[d], data[:, d])
+        H = ref_hat_matrix(stripes[d], data[:, d], boundary)
         acc = (acc[:, :, None] * H[:, None, :]).reshape(M, -1)
     return acc.sum(axis=0) / M
 
 
-def ref_interp(alphas, stripes, pts):
+def ref_interp(alphas, stripes, pts, boundary=False):
     pts = np.asarray(pts, dtype=float)
     acc = np.ones((len(pts), 1))
     for d in range(len(stripes)):
-        H = ref_hat_matrix(stripes[d], pts[:, d])
+        H = ref_hat_matrix(stripes[d], pts[:, d], boundary)
         acc = (acc[:, :, None] * H[:, None, :]).reshape(len(pts), -1)
     return acc @ np.asarray(alphas, dtype=float)
 
@@ -196,9 +200,9 @@ def make_data(case):
 # ------------------------------------------------------------------------------------------------------------
 # twin runs
 # ------------------------------------------------------------------------------------------------------------
-def _grid_size(sa, lv):
+def _grid_size(sa, lv, boundary=False):
     coords, _, _ = sa.get_point_coord_for_each_dim(lv)
-    return int(np.prod([len(c) - 2 for c in coords]))
+    return int(np.prod([len(c) - (0 if boundary else 2) for c in coords]))
 
 
 def run_single(case, reuse, corrupt=None):
@@ -209,7 +213,8 @@ def run_single(case, reuse, corrupt=None):
     data, pre_scaled, signs, pts = make_data(case)
     dim = case["dim"]
     a, b = np.zeros(dim), np.ones(dim)
-    grid = GlobalTrapezoidalGrid(a=a, b=b, modified_basis=False, boundary=False)
+    boundary = bool(case.get("boundary", False))
+    grid = GlobalTrapezoidalGrid(a=a, b=b, modified_basis=False, boundary=boundary)
     op = DensityEstimation(data.copy(), dim, grid=grid, masslumping=case["masslumping"], lambd=case["lambd"],
                            classes=None if signs is None else signs.copy(), reuse_old_values=reuse,
                            numeric_calculation=False, print_output=False, pre_scaled_data=pre_scaled,
@@ -256,7 +261,7 @@ def run_single(case, reuse, corrupt=None):
     orig_eval, orig_refine = sa.evaluate_operation, sa.refine
 
     def ev():
-        cost = sum(_grid_size(sa, cg.levelvector) ** 2 for cg in sa.scheme)
+        cost = sum(_grid_size(sa, cg.levelvector, boundary) ** 2 for cg in sa.scheme)
         if case["masslumping"]:
             cost //= 5                      # only the diagonal of R is built: measured ~5x cheaper
         if state["evals"] >= 1 and state["cost"] + cost > case["budget"]:
@@ -278,7 +283,7 @@ def run_single(case, reuse, corrupt=None):
             g["N"] = len(g["alpha"])
         for cg in sa.scheme:                            # this run's own surpluses through the reference hat basis
             g = rec["grids"][tuple(int(x) for x in cg.levelvector)]
-            own += cg.coefficient * ref_interp(g["alpha"], g["stripes"], pts)
+            own += cg.coefficient * ref_interp(g["alpha"], g["stripes"], pts, boundary)
         rec["dens_own"] = own
         records.append(rec)
         state["evals"] += 1
@@ -307,7 +312,7 @@ def max_sample_contribution(op, stripes):
     data = np.asarray(op.data, dtype=float)
     idx = sorted(set(int(op.sorted_data[d][-1]) for d in range(data.shape[1])))
     signs = None if op.classes is None else np.asarray(op.classes, dtype=float)[idx]
-    return ref_B(data[idx], signs, stripes) * len(idx) / len(data)
+    return ref_B(data[idx], signs, stripes, bool(op.grid.boundary)) * len(idx) / len(data)
 
 
 def compare_twin(out, sub, rec_off, rec_on, op_on):
@@ -447,6 +452,12 @@ def run_twin(case):
         out.cls("interpolation-large-branch")
     if case.get("directed"):
         out.cls("directed-one-sided-refinement")
+    out.cls("boundary=%s" % bool(case.get("boundary", False)))
+    if case.get("boundary"):
+        if s["big"]:
+            out.cls("boundary=True&grid>=200&reuse=off")        # the reuse-off run solves every grid without the cache
+        if s["reuse_rhs"]:
+            out.cls("boundary=True&grid>=200&reuse=on")         # the reuse-on run copied an old right-hand side there
     if s["R_reused"]:
         out.cls("R-entries-reused>0")
     if case["dim"] >= 3 and not case["masslumping"]:
@@ -512,12 +523,21 @@ def twin_strategy(tier):
             lmax = 3 if dim == 4 else draw(st.sampled_from([3, 4]))
             tape, mode = drive.st_tape(draw, maxlen=24)
             return dict(dim=dim, lmin=1, lmax=lmax, directed=False, masslumping=False, rebalancing=draw(st.booleans()),
+                        boundary=draw(st.sampled_from([False, False, False, True])),
                         margin=draw(st.sampled_from([0.5, 0.9, 0.0, 1.0])), maxsteps=draw(st.sampled_from([0, 1, 1, 2])),
                         budget=150000 if tier == "quick" else 600000, tape=tape, mode=mode, **common)
+        tape, mode = drive.st_tape(draw, maxlen=24)
+        if draw(st.sampled_from([False, False, False, True])):
+            # grid WITH boundary points (half hats at the domain ends; the stripes are the grid points): 81..165-point grids
+            # at evaluation 0 that pass 200 points after one or two steps
+            lmin, lmax = draw(st.sampled_from([(2, 4), (2, 5), (3, 4), (3, 4)]))
+            return dict(dim=2, lmin=lmin, lmax=lmax, directed=False, boundary=True, masslumping=draw(st.booleans()),
+                        rebalancing=draw(st.booleans()), margin=draw(st.sampled_from([0.5, 0.9, 0.0, 1.0])),
+                        maxsteps=draw(st.sampled_from([1, 2, 2, 3])),
+                        budget=600000 if tier == "quick" else 1500000, tape=tape, mode=mode, **common)
         dim = 2 if tier == "quick" else draw(st.sampled_from([2, 2, 3]))
         lmin, lmax = draw(st.sampled_from(LEVELS_2D if dim == 2 else LEVELS_3D))
-        tape, mode = drive.st_tape(draw, maxlen=24)
-        return dict(dim=dim, lmin=lmin, lmax=lmax, directed=False,
+        return dict(dim=dim, lmin=lmin, lmax=lmax, directed=False, boundary=False,
                     masslumping=draw(st.sampled_from([False, False, False, True])),
                     rebalancing=draw(st.booleans()), margin=draw(st.sampled_from([0.5, 0.9, 0.0, 1.0])),
                     maxsteps=draw(st.sampled_from([1, 2, 2, 3])),
@@ -543,7 +563,13 @@ def twin_fixed():
             dict(dim=3, lmin=1, lmax=3, M=60, data="uniform", labels="none", lambd=0.0, masslumping=False, rebalancing=True,
                  margin=0.5, safety=0.1, maxsteps=1, budget=150000, tape=[3, 17, 40, 9], mode=0, rng=4),
             dict(dim=4, lmin=1, lmax=3, M=50, data="clustered", labels="pm1", lambd=0.01, masslumping=False, rebalancing=False,
-                 margin=0.5, safety=0.1, maxsteps=0, budget=150000, tape=[0], mode=4, rng=5)]
+                 margin=0.5, safety=0.1, maxsteps=0, budget=150000, tape=[0], mode=4, rng=5),
+            # grids WITH boundary points beyond 200 points at evaluation 1 (289/297 points after a uniform step of lmin=3,lmax=4;
+            # library-scaled data: samples on the domain boundary), reuse-on copies old right-hand sides there
+            dict(dim=2, lmin=3, lmax=4, M=50, data="minmax", labels="pm1", lambd=0.01, masslumping=True, rebalancing=False,
+                 boundary=True, margin=0.5, safety=0.1, maxsteps=1, budget=600000, tape=[0], mode=4, rng=6),
+            dict(dim=2, lmin=2, lmax=5, M=40, data="snapped", labels="none", lambd=0.01, masslumping=False, rebalancing=True,
+                 boundary=True, margin=0.5, safety=0.1, maxsteps=2, budget=600000, tape=[5, 40, 22, 63, 9], mode=0, rng=7)]
 
 
 # ------------------------------------------------------------------------------------------------------------
@@ -660,7 +686,8 @@ def run_paths(case):
         stripes, levels = make_stripes(case["splits"])
         lv = tuple(max(l) for l in levels)
     dim = len(stripes)
-    N = int(np.prod([len(s) - 2 for s in stripes]))
+    bnd = bool(case.get("boundary", False)) and not uniform
+    N = int(np.prod([len(s) - (0 if bnd else 2) for s in stripes]))
     data, signs = paths_data(case, stripes, rng)
     pts = paths_points(case, stripes, rng)
     alphas = rng.normal(0, 1, size=N) * (1.0 + 5.0 * (rng.uniform(size=N) < 0.1))
@@ -673,7 +700,7 @@ def run_paths(case):
         with drive.quiet():
             b_nat, b_small, b_large = (np.array(f(op.data, list(lv))) for f in (nat, small, large))
     else:
-        op = DensityEstimation(data.copy(), dim, grid=GlobalTrapezoidalGrid(a=np.zeros(dim), b=np.ones(dim), boundary=False), **kw)
+        op = DensityEstimation(data.copy(), dim, grid=GlobalTrapezoidalGrid(a=np.zeros(dim), b=np.ones(dim), boundary=bnd), **kw)
         op.initialize()
         op.dimension_wise = True                                          # as init_dimension_wise does
         op.max_levels = [0] * dim                                         # as initialize_evaluation_dimension_wise does
@@ -683,8 +710,9 @@ def run_paths(case):
             b_nat, b_small, b_large = (np.array(f(op.data, stripes, levels)) for f in (nat, small, large))
     if not np.array_equal(b_nat, b_small if N < THRESHOLD else b_large):
         raise HarnessError("forced branch does not reproduce the unmodified right-hand side (N=%d)" % N)
-    tag = "%s grid %s N=%d" % (case["kind"], [len(s) - 2 for s in stripes], N)
-    d1, r1 = _cmp_paths(out, sub, "rhs-" + case["kind"], b_small, b_large, ref_B(data, signs, stripes), tag)
+    tag = "%s%s grid %s N=%d" % (case["kind"], " boundary" if bnd else "", [len(s) - (0 if bnd else 2) for s in stripes], N)
+    kname = case["kind"] + ("-boundary" if bnd else "")
+    d1, r1 = _cmp_paths(out, sub, "rhs-" + kname, b_small, b_large, ref_B(data, signs, stripes, bnd), tag)
 
     cg = ComponentGridInfo(list(lv), 1)
     op.surpluses[lv] = alphas.copy()
@@ -701,7 +729,7 @@ def run_paths(case):
         i_nat = np.array(nat(cg, mesh, plist))
     if not np.array_equal(i_nat, i_small if N < THRESHOLD else i_large):
         raise HarnessError("forced branch does not reproduce the unmodified interpolation (N=%d)" % N)
-    d2, r2 = _cmp_paths(out, sub, "interpolation-" + case["kind"], i_small, i_large, ref_interp(alphas, stripes, pts), tag)
+    d2, r2 = _cmp_paths(out, sub, "interpolation-" + kname, i_small, i_large, ref_interp(alphas, stripes, pts, bnd), tag)
     aniso = len(set(len(s) for s in stripes)) > 1
     nonuni = not uniform and any(len(set(np.round(np.diff(s), 12))) > 1 for s in stripes)
     out.nontrivial = 150 <= N <= 260 and (aniso or nonuni) and case["data"] in ("snapped", "edge", "lattice")
@@ -714,6 +742,8 @@ def run_paths(case):
             "labels=%s" % labels_kind(case), "d=%d" % dim)
     if case["boundary_pts"]:
         out.cls("evaluation-points-on-boundary")
+    if bnd:
+        out.cls("boundary=True", "boundary=True&grid>=200" if N >= THRESHOLD else "boundary=True&grid<200")
     if max(r1, r2) > TOL_PATH and not out.violations:
         out.cls("both-branches-agree-but-off-reference")
     out.info = dict(max_small_vs_large_rhs=d1, max_small_vs_large_interp=d2, max_vs_reference=max(r1, r2), max_N=N)
@@ -738,15 +768,18 @@ def paths_strategy(tier):
             case["levelvec"] = list(draw(st.sampled_from(UNIFORM_2D if dim == 2 else UNIFORM_3D)))
         else:
             target = draw(st.integers(150, 260))
+            bnd = draw(st.sampled_from([False, False, True]))
+            case["boundary"] = bnd
+            e = 2 if bnd else 0                     # with boundary points the two domain ends count as grid points
             if dim == 2:
                 n0 = draw(st.integers(3, 40))
-                n = [n0, max(1, round(target / n0))]
+                n = [n0, max(1 + e, round(target / n0))]
             else:
-                n0 = draw(st.integers(1, 9))
-                n1 = draw(st.integers(2, 12))
-                n = [n0, n1, max(1, round(target / (n0 * n1)))]
+                n0 = draw(st.integers(1 + e, 9))
+                n1 = draw(st.integers(2 + e, 12))
+                n = [n0, n1, max(1 + e, round(target / (n0 * n1)))]
             n = draw(st.permutations(n))
-            case["splits"] = [draw(st.lists(st.integers(0, 63), min_size=k - 1, max_size=k - 1)) for k in n]
+            case["splits"] = [draw(st.lists(st.integers(0, 63), min_size=k - e - 1, max_size=k - e - 1)) for k in n]
         return case
     return s()
 
